@@ -18,7 +18,7 @@ TraceReset == /\ IsEvent("reset")
               /\ handles' = <<>>
               /\ pend' = <<>>
               /\ chist' = [i \in 1 .. Len(Ev.nodes) |-> IF Ev.nodes[i].k = "f" THEN <<Ev.nodes[i].d>> ELSE <<>>]
-              /\ fails' = 0
+              /\ fails' = 0 /\ okfails' = 0
               /\ UNCHANGED svars
 
 TraceNext ==
